@@ -278,7 +278,83 @@ Definition run_broker2 (args : list bytes) : option bytes :=
   | _ => None
   end.
 
+(* ---------- one rendezvous object over a sequence of Exchanges (Model/Rendezvous.v rdv_run) ----------
+   seq <h|a> <broker> <cache|n> <front> <bf> <cf|n> <ou> <pre> <oa> <sha> <ev;ev;...>
+   ev = <poll>:<cache breaker>:<status|e>:<location 0|1>:<response>:<bodysize>:<armored length>
+   "e" = the transport returns an error.  HTTP: the served body is <response>.  AMP: the served body is the armored
+   response padded to max(bodysize, armored length) bytes; here it is the event's index followed by spaces, and the
+   armor decoder of the case is the table of those bodies (as for op amp: armor itself is C10's area).
+   Answer: per event "req=.. res=.. first=same", joined by " | " ("first" is the request a NEW object makes for the
+   same poll, printed by the driver only when it differs: in the model it is the same by rdv_run_at_is_first). *)
+Definition seq_ev_parse (t : bytes) : option (rdv_event * (bytes * N)) :=
+  match split_on COLON t with
+  | [poll; cb; st; loc; resp; bodysize; alen] =>
+      match payload_parse poll, payload_parse cb, bool_parse loc, payload_parse resp, dec_parse bodysize, dec_parse alen with
+      | Some poll, Some cb, Some loc, Some resp, Some bodysize, Some alen =>
+          let reply := if beq st (bs "e") then Some TxError
+                       else option_map (fun s => TxResponse s loc resp) (dec_parse st) in
+          option_map (fun r => (mk_rdv_event poll cb r, (resp, N.max bodysize alen))) reply
+      | _, _, _, _, _, _ => None
+      end
+  | _ => None
+  end.
+
+(* the served AMP body of event i: i, then spaces, n bytes in all (n >= 1: armor is never empty) *)
+Definition seq_amp_body (i : nat) (n : N) : bytes := N.of_nat i :: repeat 32 (N.to_nat n - 1)%nat.
+Definition seq_amp_event (i : nat) (e : rdv_event * (bytes * N)) : rdv_event :=
+  let '(ev, (_, n)) := e in
+  match ev_reply ev with
+  | TxError => ev
+  | TxResponse st loc _ => mk_rdv_event (ev_poll ev) (ev_cb ev) (TxResponse st loc (seq_amp_body i n))
+  end.
+Fixpoint seq_amp_events (i : nat) (es : list (rdv_event * (bytes * N))) : list rdv_event :=
+  match es with
+  | [] => []
+  | e :: r => seq_amp_event i e :: seq_amp_events (S i) r
+  end.
+Definition seq_armor_decode (es : list (rdv_event * (bytes * N))) (lr : bytes) : option bytes :=
+  match lr with
+  | [] => None
+  | i :: _ => match nth_error es (N.to_nat i) with
+              | Some (_, (resp, n)) => if N.of_nat (List.length lr) =? n then Some resp else None
+              | None => None
+              end
+  end.
+
+Definition seq_out_print (served : bytes) (o : option request * option bytes) : bytes :=
+  req_print (fst o) ++ [SP] ++ res_body_print served (snd o) ++ bs " first=same".
+
+Definition run_seq (args : list bytes) : option bytes :=
+  match args with
+  | [op; m; _; _; front; bf; cf; ou; pre; oa; sha; evs] =>
+      if beq op (bs "seq") then
+        match payload_parse front, broker_parse bf,
+              (if beq cf (bs "n") then Some None else option_map Some (cache_parse cf)),
+              opt_payload_parse ou, opt_payload_parse pre, opt_payload_parse oa, payload_parse sha,
+              map_opt seq_ev_parse (split_on SEMI evs) with
+        | Some front, Some b, Some cache, Some ou, Some pre, Some oa, Some sha, Some es =>
+            let http := beq m (bs "h") in
+            let miss := match http, cache, ou, pre with
+                        | false, Some _, Some u, Some p => negb (beq (steps234 h34_runes u) p)
+                        | false, Some _, Some _, None => true
+                        | _, _, _, _ => false
+                        end in
+            if miss then Some (bs "!oracle-miss")
+            else if negb (http || beq m (bs "a")) then None
+            else
+              let cfg := mk_rdv_config b (if http then MHttp else MAmp cache) front in
+              let events := if http then map fst es else seq_amp_events 0 es in
+              let outs := snd (rdv_run (fun _ => ou) (fun _ => oa) (fun _ => sha) h34_runes (seq_armor_decode es)
+                                       (rdv_init cfg) events) in
+              Some (join (bs " | ") (map (fun p => seq_out_print (fst (snd (fst p))) (snd p)) (combine es outs)))
+        | _, _, _, _, _, _, _, _ => None
+        end
+      else None
+  | _ => None
+  end.
+
 Definition run (args : list bytes) : bytes :=
+  match run_seq args with Some r => r | None =>
   match run_broker2 args with Some r => r | None =>
   match run_path args with
   | Some r => r
@@ -289,4 +365,4 @@ Definition run (args : list bytes) : bytes :=
                       | None => match run_broker args with Some r => r | None => ERR_BADCASE end
                       end
             end
-  end end.
+  end end end.
